@@ -201,7 +201,7 @@ def run(tier, v):
     t0 = time.time()
     # ---- 1. design level; TLC also prints the fault-plan catalogue --------------------------------
     main_cfg = "PoolRun_thorough.cfg" if thorough else "PoolRun_quick.cfg"
-    pool = ThreadPoolExecutor(max_workers=6)
+    pool = ThreadPoolExecutor(max_workers=8)
     f_main = pool.submit(vlib.tlc, "PoolRunPlans", main_cfg, None, max(4, ncpu // 2), 3000, heap="16g" if thorough else "6g")
     f_build = pool.submit(vlib.harness_build)
 
@@ -231,7 +231,10 @@ def run(tier, v):
         return res
 
     import c05_engine
+    import c05_repo
     f_eng = pool.submit(c05_engine.design, thorough, fix_temporal)
+    # the repository's OWN tests, recorded through the hook file sink, validated by TracePoolRunHooks.tla (see c05_repo.py)
+    f_repo = pool.submit(c05_repo.bind, tier, v)
     def three():
         """growth: three instances with a startup schedule (MaxN = 3), thorough tier only"""
         r3 = fix_temporal(vlib.tlc("PoolRunPlans", "PoolRun_n3.cfg", workers=max(4, ncpu // 2), timeout=3000, heap="12g"))
@@ -330,6 +333,10 @@ def run(tier, v):
         cov["states"] += three_cov["three_instances_states"]
         cov["transitions"] += three_cov["three_instances_transitions"]
         cov["traces_validated_against_impl"] += three_cov["three_instances_traces_validated"]
+    repo_cov = f_repo.result()
+    cov["repo_tests"] = repo_cov
+    cov["repo_test_traces"] = repo_cov["repo_test_traces"]
+    cov["traces_validated_against_impl"] += repo_cov["repo_test_traces_validated"]
     cov["states"] += eng["states"]
     cov["transitions"] += eng["transitions"]
     cov["traces_validated_against_impl"] += engb["engine_traces_validated"]
@@ -343,11 +350,20 @@ def run(tier, v):
         "suppressed after the cancel (the spec states this exemption explicitly: cancelAtRet)",
         "trusted: the scripted mocks and recorder (harness/cmd/vdrive/poolrun.go), the placement of the verif hooks in core/engine "
         "(each cancelling step is logged before its cancel() call), TLC",
+        "repository's own tests (go test -tags verif, hook file sink): hook events only, the tests' components are the most general "
+        "environment of PoolRun.tla; acceptance is prefix-closed safety (a test process may end before its background goroutines); "
+        "which tests can cancel the caller's context is a reviewed list (checks/c05_repo.py, unknown tests: may cancel); a failing "
+        "repository test is noted, never a verdict",
     ]
 
 
 def replay(path, v):
     obj = json.load(open(path))
+    if obj.get("kind") == "repo-trace":
+        import c05_repo
+        vlib.spec_copy()
+        c05_repo.replay(obj, v)
+        return None
     d = vlib.scratch()
     evs = obj["events"]
     acc, n, _, rej = validate(v, evs, [obj["plan"]], d, workers=1, module=obj.get("module", "TracePoolRun"), cfg=obj.get("cfg"))
